@@ -307,8 +307,22 @@ def walk(ctx, rng, sizes: tuple[int, int, int], steps: int, deadline: float):
             dt = pick(dts, scan_i)
             msg = jelly.RdfLiteral()
             hist.append(("lit", dt))
+            both = rng.random() < .15      # a literal object carrying a language tag AND a datatype (e.g. rdf:langString)
             try:
-                rows = enc.encode_literal(lex="x", datatype=dt, literal=msg)
+                rows = enc.encode_literal(lex="x", datatype=dt, literal=msg, **({"language": "de"} if both else {}))
+                if both:
+                    # whatever the term ends up as on the wire, the TABLES must still mirror: every entry the writer
+                    # holds has been sent to the reader
+                    for r in rows:
+                        e = r.datatype
+                        refs["datatype"].entry(e.id, e.value)
+                        dec.decode_row(e)
+                    table = reader_table(dec.datatypes, d)
+                    for k, i in enc.datatypes.lookup.data.items():
+                        if table[i - 1] != k:
+                            raise Broken("mirror", f"after a literal with language tag and datatype: writer {k!r}->{i}, reader slot {table[i - 1]!r}")
+                    ctx.observe("walk-literals-with-language-and-datatype")
+                    continue
                 for r in rows:
                     e = r.datatype
                     if not 0 <= e.id <= d:
